@@ -116,7 +116,26 @@ def limit_programs():
         # and the last literal still denote themselves
         out.append(("limit:constvalues:%d:%d" % (n, n - 1), "fn f() {\nvar first = 0.25;\nvar s = 0;\n" + "".join("s = %d.5;\n" % i for i in range(n - 1)) +
                     "return [first, s];\n}\nvar r = f();\nprint(r[0]);\nprint(r[1]);\n", {}))
+    # the LAST byte of a function body takes every value 0..255 (the element count of a vector literal in the final statement is an
+    # operand byte, e.g. 57 = the number of the Return opcode): whatever the body ends in, the function must still end by returning
+    for b in range(256):
+        out.append(("limit:tail:%d" % b, "fn f() {\n  var t = [%s];\n}\nprint(f());\nprint(\"done\");\n" % ", ".join("0" for _ in range(b)), {}))
+        TAIL_EXPECT["limit:tail:%d" % b] = ["nil", "done"]
+    # bodies whose last statement returns on some paths only
+    tails = [("else-returns", "fn g(x) {\n  if x { var y = 1; } else { return 2; }\n}\nprint(g(true));\nprint(g(false));\nprint(\"done\");\n", ["nil", "2", "done"]),
+             ("then-returns", "fn g(x) {\n  if x { return 1; }\n}\nprint(g(true));\nprint(g(false));\nprint(\"done\");\n", ["1", "nil", "done"]),
+             ("loop-returns", "fn g(n) {\n  while n > 0 { return n; }\n}\nprint(g(3));\nprint(g(0));\nprint(\"done\");\n", ["3", "nil", "done"]),
+             ("for-returns", "fn g(v) {\n  for x in v { return x; }\n}\nprint(g([7]));\nprint(g([]));\nprint(\"done\");\n", ["7", "nil", "done"]),
+             ("try-returns", "fn g(x) {\n  try { if x { return 1; } } catch e { return 2; }\n}\nprint(g(true));\nprint(g(false));\nprint(\"done\");\n", ["1", "nil", "done"]),
+             ("method-else-returns", "#[constructor(new)]\nclass K {\n  fn m(self, x) {\n    if x { self.v = 1; } else { return 2; }\n  }\n}\nprint(K.new().m(true));\nprint(K.new().m(false));\nprint(\"done\");\n", ["nil", "2", "done"]),
+             ("lambda-block-else-returns", "var h = |x| { if x { var y = 1; } else { return 2; } };\nprint(h(true));\nprint(h(false));\nprint(\"done\");\n", ["nil", "2", "done"])]
+    for tag, src, exp in tails:
+        out.append(("limit:tail:" + tag, src, {}))
+        TAIL_EXPECT["limit:tail:" + tag] = exp
     return out
+
+
+TAIL_EXPECT = {}
 
 
 def correspondence(ctx, model_ok=True):
@@ -208,7 +227,7 @@ def correspondence(ctx, model_ok=True):
             continue
         kind = name.split(":")[1]
         expect = {"jump": ["done"], "loop": ["2", "done"], "try": ["caught", "done"]}.get(kind)
-        if r.get("status") == "err" and r.get("kind") == "CompileError":
+        if r.get("status") == "err" and r.get("kind") == "CompileError" and kind != "tail":
             ok = True
         elif r.get("status") == "ok" and kind == "constvalues":
             ok = r.get("printed") == ["0.25", "%s.5" % (int(name.split(":")[3]) - 1)]
@@ -218,6 +237,8 @@ def correspondence(ctx, model_ok=True):
             ok = r.get("printed") == ["hi!", "5", name.split(":")[3]]
         elif r.get("status") == "ok" and kind == "upvalues2":
             ok = r.get("printed") == [name.split(":")[3], "0", "written"]
+        elif kind == "tail":
+            ok = r.get("status") == "ok" and r.get("printed") == TAIL_EXPECT[name]
         elif r.get("status") == "ok" and kind == "interpshape":
             ok = r.get("printed") == [name.split(":")[4]]
         elif r.get("status") == "ok":
